@@ -81,6 +81,14 @@ def run(tier):
             if mode == "forked":
                 # the forked child runs them with the client as a thread
                 use = [b for b in behs if True][:max(300, len(behs) // 4)]
+            if mode == "process" and name == "bfs-1srv":
+                # a client that runs far ahead of accept: 60 multi-packet messages (~0.5 MB, more than the kernel queues)
+                # are sent before the server accepts; every one must arrive, in order, and no send may fail
+                use = use + [{"ops": [{"op": "new", "i": 1}, {"op": "connect", "i": 1, "res": "ok"},
+                                      {"op": "runahead", "i": 1, "x": 1, "n": 60}, {"op": "sleep", "i": 1, "ms": 400},
+                                      {"op": "accept", "i": 1, "x": 1, "big": True, "att": False},
+                                      {"op": "recvn", "i": 1, "from": 2, "n": 59}, {"op": "collect", "i": 1},
+                                      {"op": "exit", "i": 1}]}]
             vs = replay_behs(use, variant, mode)
             nbad = 0
             for b, v in zip(use, vs):
